@@ -215,6 +215,10 @@ def matrix_system(
         # unbounded sources: lower bounds on the scale of the nominal range (also above 1 intensity unit)
         top = ub if ub is not None else [draw(st.sampled_from([1.0, NOMINAL_RANGE]))] * nn
         lb = [float(f) * float(u) for f, u in zip(fr, top)]
+        if lk == "mixed-sign":
+            # some sources may be driven negative (a legitimate lower bound of either sign), others not
+            sg = draw(st.lists(st.sampled_from([-1.0, -1.0, 0.0, 1.0]), min_size=nn, max_size=nn))
+            lb = [float(v) * s_ for v, s_ in zip(lb, sg)]
     # capture matrix, redrawn (bounded) until well-conditioned
     redraws = 0
     A = None
